@@ -342,6 +342,17 @@ func runSites(tier string, seed uint64, out string) {
 			}
 		}
 	}
+	// functions whose body starts with a deferred recovering closure
+	recovering := map[string]bool{}
+	for _, af := range parsed {
+		for _, d := range af.Decls {
+			if fd, ok := d.(*ast.FuncDecl); ok && fd.Body != nil {
+				if rec, safe := hasRecoverDefer(fd.Body); rec && safe {
+					recovering[fd.Name.Name] = true
+				}
+			}
+		}
+	}
 	for idx, af := range parsed {
 		file := names[idx]
 		for _, d := range af.Decls {
@@ -387,12 +398,23 @@ func runSites(tier string, seed uint64, out string) {
 								}
 							}
 							gs.OnlyWaitDone = only
+							allSafe := true
 							ast.Inspect(lit.Body, func(c ast.Node) bool {
 								if ce, ok := c.(*ast.CallExpr); ok {
-									gs.Calls = append(gs.Calls, callName(ce))
+									cn := callName(ce)
+									gs.Calls = append(gs.Calls, cn)
+									// calls that cannot let a panic out of this goroutine: functions with their own
+									// top-level recovering defer, WaitGroup bookkeeping, and the caller-supplied
+									// error handler (user code, audited)
+									if !(recovering[cn] || strings.HasSuffix(cn, ".Done") || strings.HasSuffix(cn, ".Wait") || cn == "?.errors") {
+										allSafe = false
+									}
 								}
 								return true
 							})
+							if allSafe && len(gs.Calls) > 0 {
+								gs.HasRecover = true // every call is itself recovered
+							}
 							gos = append(gos, gs)
 							walk(lit.Body, true, rec)
 							return false
